@@ -769,3 +769,222 @@ func isByteSource(f *ssa.Function) bool {
 	n, ok := t.(*types.Named)
 	return ok && !strings.HasPrefix(n.Obj().Name(), "JSON")
 }
+
+func init() {
+	register("LDR-11", "a JSON null cannot become a nil pointer that a loader dereferences", 3, ruleLDR11)
+}
+
+// pointerComponents lists the pointer types met inside t (slice/array elements, map values, struct fields), i.e. the
+// places where encoding/json stores nil for a JSON null.
+func pointerComponents(t types.Type, path string, seen map[types.Type]bool, out map[string]*types.Pointer) {
+	if seen[t] {
+		return
+	}
+	seen[t] = true
+	switch u := t.Underlying().(type) {
+	case *types.Pointer:
+		out[path] = u
+		pointerComponents(u.Elem(), path+"*", seen, out)
+	case *types.Slice:
+		pointerComponents(u.Elem(), path+"[]", seen, out)
+	case *types.Array:
+		pointerComponents(u.Elem(), path+"[]", seen, out)
+	case *types.Map:
+		pointerComponents(u.Elem(), path+"[k]", seen, out)
+	case *types.Struct:
+		for i := 0; i < u.NumFields(); i++ {
+			pointerComponents(u.Field(i).Type(), path+"."+u.Field(i).Name(), seen, out)
+		}
+	}
+}
+
+// nilGuarded: instruction `at` is dominated by the non-nil edge of a nil test of v.
+func nilGuarded(fn *ssa.Function, at ssa.Instruction, v ssa.Value) bool {
+	return edgesDominate(fn, at, func(b *ssa.BasicBlock, si int) bool {
+		iff, isIf := b.Instrs[len(b.Instrs)-1].(*ssa.If)
+		if !isIf {
+			return false
+		}
+		kind, sNil, okc := condOn(iff.Cond, func(x ssa.Value) bool { return x == v })
+		return okc && kind == "nil" && si == 1-sNil
+	})
+}
+
+// unguardedDerefs: dereferences (field address, load through) of pointer value v in fn that no nil test protects; values
+// handed to module callees are followed one level into the callee's parameter.
+func (c *Ctx) unguardedDerefs(fn *ssa.Function, v ssa.Value, depth int) []string {
+	p := c.P
+	var bad []string
+	refs := v.Referrers()
+	if refs == nil {
+		return nil
+	}
+	for _, r := range *refs {
+		switch x := r.(type) {
+		case *ssa.FieldAddr:
+			if x.X == v && !nilGuarded(fn, x, v) {
+				bad = append(bad, "field access at "+p.InstrPos(x))
+			}
+		case *ssa.UnOp:
+			if x.Op == token.MUL && x.X == v && !nilGuarded(fn, x, v) {
+				bad = append(bad, "load at "+p.InstrPos(x))
+			}
+		case *ssa.Phi:
+			bad = append(bad, c.unguardedDerefs(fn, x, depth)...)
+		case ssa.CallInstruction:
+			if nilGuarded(fn, x.(ssa.Instruction), v) {
+				continue
+			}
+			callee := x.Common().StaticCallee()
+			if callee == nil || callee.Blocks == nil || !fnInModule(callee) || depth >= 2 {
+				continue
+			}
+			for i, a := range x.Common().Args {
+				if a == v && i < len(callee.Params) {
+					for _, b := range c.unguardedDerefs(callee, callee.Params[i], depth+1) {
+						bad = append(bad, b+" (via "+fnName(callee)+")")
+					}
+				}
+			}
+		}
+	}
+	return bad
+}
+
+func ruleLDR11(c *Ctx) {
+	p := c.P
+	seenFn := map[*ssa.Function]bool{}
+	n := 0
+	for _, e := range c.loaderEntries() {
+		if e.fn == nil {
+			c.AnchorLost(e.name)
+			continue
+		}
+		for _, fn := range c.barrierlessLoaderFuncs(e) {
+			if seenFn[fn] || generatedExempt(fn) {
+				continue
+			}
+			seenFn[fn] = true
+			for _, ci := range callsIn(fn) {
+				name := calleeName(ci)
+				if name != "encoding/json.Unmarshal" && name != "(*encoding/json.Decoder).Decode" {
+					continue
+				}
+				args := ci.Common().Args
+				target := args[len(args)-1]
+				if mi, ok := target.(*ssa.MakeInterface); ok {
+					target = mi.X
+				}
+				pt, ok := target.Type().Underlying().(*types.Pointer)
+				if !ok {
+					c.Undecided(fnName(fn)+" / decode target", p.InstrPos(ci.(ssa.Instruction)), "decode target is not a pointer the rule can type")
+					continue
+				}
+				n++
+				comps := map[string]*types.Pointer{}
+				pointerComponents(pt.Elem(), "", map[types.Type]bool{}, comps)
+				construct := fmt.Sprintf("%s / decode into %s", fnName(fn), types.TypeString(pt.Elem(), func(pk *types.Package) string { return pk.Name() }))
+				if len(comps) == 0 {
+					c.OK(construct, p.InstrPos(ci.(ssa.Instruction)), "the target type has no pointer components: a JSON null leaves a zero value, never a nil pointer")
+					continue
+				}
+				// every load of such a pointer in the loader functions must be nil-tested before it is dereferenced
+				var bad []string
+				for _, lf := range c.barrierlessLoaderFuncs(e) {
+					for _, b := range lf.Blocks {
+						for _, in := range b.Instrs {
+							v, isVal := in.(ssa.Value)
+							if !isVal {
+								continue
+							}
+							isComp := false
+							for _, cp := range comps {
+								if types.Identical(v.Type(), cp) {
+									isComp = true
+								}
+							}
+							if !isComp {
+								continue
+							}
+							switch x := v.(type) {
+							case *ssa.UnOp:
+								if x.Op != token.MUL {
+									continue
+								}
+								if _, isAlloc := x.X.(*ssa.Alloc); isAlloc {
+									continue // a local variable's value: judged where it was produced
+								}
+							case *ssa.Extract, *ssa.Lookup:
+							default:
+								continue
+							}
+							for _, d := range c.unguardedDerefs(lf, v, 0) {
+								bad = append(bad, d)
+							}
+						}
+					}
+				}
+				sort.Strings(bad)
+				var paths []string
+				for k := range comps {
+					paths = append(paths, k)
+				}
+				sort.Strings(paths)
+				c.Check(len(bad) == 0, construct, p.InstrPos(ci.(ssa.Instruction)), fmt.Sprintf("pointer components %v are nil-tested before every dereference", paths), fmt.Sprintf("the target type has pointer components %v: a JSON `null` there decodes to a nil pointer, which is dereferenced without a nil test (%s): the loader panics on that input", paths, strings.Join(uniq(bad), "; ")))
+			}
+		}
+	}
+	if n == 0 {
+		c.Fail("JSON decode sites on loader paths", "-", "no json.Unmarshal / Decoder.Decode call found on a loader path (anchor lost)")
+	}
+}
+
+func init() {
+	register("LDR-12", "a node's snapshot renders each child at most once on any path (snapshot size stays linear in the rule text)", 13, ruleLDR12)
+}
+
+// LDR-12: GetSnapshot is called for every node while a rule text is loaded. If one path through a node's GetSnapshot
+// renders the same child twice, the text doubles per nesting level: a rule text of n bytes costs 2^n bytes of memory.
+func ruleLDR12(c *Ctx) {
+	p := c.P
+	for _, n := range nodeTypeNames {
+		fn := p.Method("ast", n, "GetSnapshot")
+		if fn == nil {
+			c.AnchorLost("(*ast." + n + ").GetSnapshot")
+			continue
+		}
+		recv := ssa.Value(receiver(fn))
+		type site struct {
+			call  *ssa.Call
+			field *types.Var
+		}
+		var sites []site
+		for _, ci := range callsIn(fn) {
+			call, ok := ci.(*ssa.Call)
+			if !ok || !calleeNameIs(call, "GetSnapshot") {
+				continue
+			}
+			var rv ssa.Value
+			if call.Call.IsInvoke() {
+				rv = call.Call.Value
+			} else if len(call.Call.Args) > 0 {
+				rv = call.Call.Args[0]
+			}
+			if f, base := fieldLoad(unspill(rv)); f != nil && base == recv {
+				sites = append(sites, site{call, f})
+			}
+		}
+		bad := ""
+		for i, a := range sites {
+			for j, b := range sites {
+				if i == j || a.field != b.field {
+					continue
+				}
+				if t, _ := reach(fn, a.call, func(in ssa.Instruction) bool { return in == ssa.Instruction(b.call) }, nil, nil); t != nil {
+					bad = fmt.Sprintf("child %s is rendered at %s and again at %s on the same path", a.field.Name(), p.InstrPos(a.call), p.InstrPos(b.call))
+				}
+			}
+		}
+		c.Check(bad == "", n+".GetSnapshot / no child rendered twice on one path", p.Pos(fn.Pos()), fmt.Sprintf("%d child renderings, pairwise on exclusive paths or of different children", len(sites)), bad+": the snapshot doubles with every nesting level of this form, so a rule text of a few dozen bytes makes the loader allocate gigabytes")
+	}
+}
